@@ -93,8 +93,10 @@ let err_of s : err =
   | ["idchanged"] -> E_IdChanged | ["idmissing"] -> E_IdMissingInBatch | ["unprepared"] -> E_Unprepared
   | ["unexpected"] -> E_Unexpected | ["parse"] -> E_Parse
   | ["db"; c] -> E_Db (n_of_hex c)
-  | ("exec" | "other" | "page") :: _ | ["rows-missing"] | ["no-error-reported"] ->
-    (* request timeout, empty plan, broken connection, …: the environment, not the property *)
+  | "exec" :: _ ->
+    (* request timeout, empty plan, no connection in the pool: the environment, not the property.
+       Everything else the code under test produced (other:*, page:*, rows-missing, …) falls
+       through to a class the model never yields: a mismatch, judged by the property predicate *)
     raise (Notrun ("client call ended with " ^ s))
   | _ -> E_Db (n_of_hex "ffffffff")     (* a class the model never produces: always a mismatch *)
 
@@ -179,7 +181,7 @@ let verdict case impl =
     let nodes : nat -> node = fun nd ->
       { n_ext = ext_of (int_of_nat nd); n_prep = (fun _ -> true); n_ver = (fun _ -> N0); n_salt = (fun _ -> N0) } in
     (* observations *)
-    let obs = ref impl in
+    let obs = ref (List.filter (fun t -> t <> "-") impl) in      (* "-" = a history without client calls *)
     let next_obs () = match !obs with x :: r -> obs := r; x | [] -> raise (Notrun "runner produced fewer observations than the case has calls") in
     let forced = ref false and has_par = ref false in
     let parse_obs node =
@@ -258,6 +260,7 @@ let verdict case impl =
         | "F" :: _ -> forced := true
         | _ -> failwith ("bad op " ^ t)) optoks;
     let items = List.rev !items in
+    if !obs <> [] then failwith "more observations than client calls";
     let tr = List.concat_map (function `Seq o -> [o] | `Par (a, b) -> [a; b]) items in
     let show_v = function
       | V_ok _ -> "ok"
@@ -344,7 +347,7 @@ let verdict case impl =
       (match run (ginit init) 0 0 items with
        | `Bad (idx, ops, why) ->
          (* model and implementation differ on these ops: property failure or broken correspondence? *)
-         let bad_book = List.filter (fun (i, cl) -> int_of_nat i >= idx && cl <> Some true) (bookkeeping (idx + List.length ops)) in
+         let bad_book = List.filter (fun (i, _) -> int_of_nat i >= idx) (bookkeeping (idx + List.length ops)) in
          if List.exists (fun o -> not (prop_ok o)) ops then
            Printf.sprintf "viol op=%d property predicate fails on the implementation's trace; model mismatch: %s" idx why
          else if bad_book <> [] then
@@ -438,9 +441,12 @@ let verdict case impl =
               | ["e"; "allfailed"] -> PO_err PE_AllFailed
               | _ -> raise (Notrun ("prepare ended with " ^ out))) in
           if not conform then "error mock-answer differs from the specification node (P)"
-          else if n_rs <> nnodes && n_rs <> 2 * nnodes then raise (Notrun "PREPARE did not reach every node")
+          else if (n_rs <> nnodes && n_rs <> 2 * nnodes)
+               || List.sort compare (List.map fst round1) <> List.init nnodes (fun i -> i)
+               || (round2 <> [] && List.sort compare (List.map fst round2) <> List.init nnodes (fun i -> i))
+          then raise (Notrun "a round of PREPAREs did not reach every node exactly once")
           else if session_prep_accept (List.map snd round1) (if round2 = [] then None else Some (List.map snd round2)) obs then "ok"
-          else "viol Session::prepare returned something no order of the nodes' answers explains"
+          else "diff Session::prepare returned something no order of the nodes' answers explains (model of prepare_on_all)"
         | _ -> failwith "bad P observation")
      | _ -> failwith "bad P observation")
   | _ -> "error unknown-case"
@@ -448,7 +454,8 @@ let verdict case impl =
 let verdict case impl =
   (* a history that could not be run (environment) is counted, never judged *)
   match impl with
-  | "error" :: rest -> "ok notrun=" ^ String.concat "_" rest
+  | "error" :: (("session" | "session-timeout" | "start-cluster") :: _ as rest) -> "ok notrun=" ^ String.concat "_" rest
+  | "error" :: rest -> "error runner: " ^ String.concat " " rest     (* a panic, a malformed case, … : not the environment *)
   | _ ->
     (try verdict case impl with
      | Notrun why -> "ok notrun=" ^ String.concat "_" (String.split_on_char ' ' why)
